@@ -1,3 +1,4 @@
+import SaVerif.Gen.ExpireCfg
 /-
 M-ORM/expire: one Session, its identity map and attribute states, against a
 database that another connection also writes.
@@ -21,10 +22,30 @@ Session.refresh: _expire_state, _autoflush,            `Op.refresh`
   load_on_ident(refresh_state, only_load_props) →
   _populate_full + _commit / _commit_all;
   InvalidRequestError "Could not refresh instance"
-loading._instance_processor:                           `Op.query pop filt`
+loading._instance_processor:                           `Op.query pop filt cols`
   populate_existing → _populate_full + _commit_all      (pop = true: everything overwritten,
   existing instance → _populate_partial(state.unloaded)  pending changes dropped; pop = false:
   new identity → new instance                            only unloaded, unmodified attributes)
+the result row need not carry every column of the      `cols` (none = all columns; the primary key
+  entity (select(T).from_statement(select(T.id, …)),     is always there), `covers`
+  from_statement(text(…)), a joined-inheritance
+  subclass instance met by a query of the base):
+  loading._instance_processor / strategies.
+  _ColumnLoader.create_row_processor:
+  result._getter(col, False) is None →
+  populators["expire"].append((key, True)),
+  else populators["quick"]
+loading._populate_full (isnew)                         `populateCols` (existing identity,
+  quick: dict_[key] = getter(row)                        populate_existing), `newObjCols` (new
+  populate_existing: for key, set_callable in            identity: nothing to pop)
+    populators["expire"]: dict_.pop(key, None);         `Gen.ExpireCfg.populateExistingPopsAbsent`
+    expired_attributes.add(key)                          (regenerated from the source: is the pop
+  then state._commit_all: committed_state.clear(),       unconditional?)
+  modified := False
+loading._populate_partial (isnew): to_load =           `loadExpiredCols`
+  state.unloaded; quick ∩ to_load filled, expire ∩
+  to_load stay out of dict_ and expired;
+  state._commit(dict_, to_load)
 Session._autoflush before query / refresh / unexpire   `autoflush`
 persistence._collect_update_commands (attributes in    `flushObj` / `needsUpdate`
   committed_state whose value differs), rowcount 0 →
@@ -33,6 +54,9 @@ Session.commit (flush, COMMIT, expire_on_commit →      `Op.commit`
   _expire for every state)
 Session.rollback (pass-through without transaction;    `Op.rollback`
   else ROLLBACK and every state expired)
+loading._load_scalar_attributes for an inheriting       `loadScalarAttributes` (decision only; the
+  mapper: _optimized_get_statement → FromStatement →      transition system is the single-table
+  `return _load_on_ident(...)` (result not examined)      mapper), `Gen.ExpireCfg.optimizedGetResultChecked`
 another connection: UPDATE / DELETE / INSERT + COMMIT   `Op.extSet`, `Op.extDel`, `Op.extIns`
   (SQLite: impossible while the session holds           (skipped while `St.saved` is some)
   uncommitted DML; the harness skips in that case)
@@ -42,7 +66,7 @@ plus its own flushed changes); `St.saved` keeps the committed snapshot while
 uncommitted DML exists.  pysqlite opens no read transaction, so a SELECT of the
 session always sees the other connection's latest commit.
 
-Import-free, total, executable.
+Import-free (except the regenerated `SaVerif.Gen.ExpireCfg`), total, executable.
 -/
 namespace SaVerif.Expire
 
@@ -80,7 +104,8 @@ inductive Op
   | expire (k : Nat) (attrs : Option (List Attr))      -- none: whole object
   | expireAll
   | refresh (k : Nat) (attrs : Option (List Attr))
-  | query (pop : Bool) (filt : Option (Attr × Int))    -- pop: populate_existing
+  | query (pop : Bool) (filt : Option (Attr × Int)) (cols : Option (List Attr))
+      -- pop: populate_existing; cols: the attributes whose columns the rows carry (none: all)
   | flush
   | commit
   | rollback
@@ -122,6 +147,33 @@ def loadExpired (o : Obj) (r : Vals) : Obj :=
 
 /-- `_populate_full` + `_commit_all` -/
 def populateFull (_o : Obj) (r : Vals) : Obj := newObj r
+
+/-- the result row carries the column of attribute `a` (`none`: every column) -/
+def covers : Option (List Attr) → Attr → Bool
+  | none, _ => true
+  | some l, a => l.contains a
+
+/-- a new identity met in a row that carries `cols`: `_populate_full` without
+    populate_existing — quick populators fill the dict, the attributes of the absent columns
+    go to `expired_attributes` (not loaded; the first read loads them) -/
+def newObjCols (r : Vals) (cols : Option (List Attr)) : Obj :=
+  ⟨fun a => if covers cols a then some (r a) else none, fun _ => false, fun _ => none, true, false⟩
+
+/-- `_populate_partial` with `to_load = state.unloaded` for an identity that is already in
+    the Session and a row that carries `cols`: what is neither loaded nor modified is filled
+    if the row has it and stays expired otherwise -/
+def loadExpiredCols (o : Obj) (r : Vals) (cols : Option (List Attr)) : Obj :=
+  { o with dict := fun a => if (o.dict a).isNone && !o.mod a && covers cols a then some (r a) else o.dict a,
+           pk := true }
+
+/-- `_populate_full` with populate_existing + `_commit_all` for an identity that is already
+    in the Session and a row that carries `cols`: carried attributes are overwritten; the
+    others are popped from the dict (when the source does so — regenerated flag) and expired;
+    all pending state is dropped. -/
+def populateCols (o : Obj) (r : Vals) (cols : Option (List Attr)) : Obj :=
+  ⟨fun a => if covers cols a then some (r a)
+            else if SaVerif.Gen.ExpireCfg.populateExistingPopsAbsent then none else o.dict a,
+   fun _ => false, fun _ => none, true, false⟩
 
 /-- refresh with `only_load_props` -/
 def populateAttrs (o : Obj) (attrs : List Attr) (r : Vals) : Obj :=
@@ -220,6 +272,15 @@ def attrsOk (c : Cfg) : Option (List Attr) → Bool
   | none => true
   | some l => !l.isEmpty && l.all (· < c.nattr)
 
+/-- column subset of a query: may be empty (primary key only) -/
+def colsOk (c : Cfg) : Option (List Attr) → Bool
+  | none => true
+  | some l => l.all (· < c.nattr)
+
+def filtOk (c : Cfg) : Option (Attr × Int) → Bool
+  | none => true
+  | some (a, _) => a < c.nattr
+
 /-- what an instance looks like to the Session it is (re-)attached to: its loaded values, no
     history (only clean instances are detached; `merge(load=False)` commits all anyway) -/
 def cleanCopy (o : Obj) : Obj := ⟨o.dict, fun _ => false, fun _ => none, o.pk, false⟩
@@ -264,7 +325,7 @@ def step (c : Cfg) (st : St) : Op → St × Out
                     | some l => populateAttrs o1 l r
           (setObj { st1 with txn := true } k (some o2), .done)
         | _, _ => ({ st1 with txn := true }, .norow)
-  | .query pop filt =>
+  | .query pop filt cols =>
     match autoflush c st with
     | none => (rolledBack st, .stale)
     | some st1 =>
@@ -276,8 +337,8 @@ def step (c : Cfg) (st : St) : Op → St × Out
              | some r =>
                if rowMatches filt r then
                  match st1.objs k with
-                 | some o => some (if pop then populateFull o r else loadExpired o r)
-                 | none => some (newObj r)
+                 | some o => some (if pop then populateCols o r cols else loadExpiredCols o r cols)
+                 | none => some (newObjCols r cols)
                else st1.objs k
              | none => st1.objs k
            else st1.objs k }, .done)
@@ -321,6 +382,39 @@ def step (c : Cfg) (st : St) : Op → St × Out
                  det := fun j => if j = k then none else st.det j, txn := true }, .done)
     | _, _ => (st, .skip)
 
+/-! ### `loading._load_scalar_attributes`: which SELECT unexpires, and what "no row" becomes
+
+The transition system above is the single-table mapper (`mapper.inherits` is None): `read` of an
+unloaded attribute whose row vanished gives `Out.gone` (the `has_key and result is None →
+ObjectDeletedError` test at the end of `_load_scalar_attributes`).  A mapper that inherits
+(joined-table) first tries `mapper._optimized_get_statement`; that branch is transcribed here. -/
+
+/-- outcome of unexpiring attributes of a persistent instance -/
+inductive Unexpired
+  | loaded          -- the row was found, the attributes are populated
+  | objectDeleted   -- ObjectDeletedError
+  | nothing         -- no row and no error: the attributes stay out of the dict, `_load_expired`
+                    -- clears `expired_attributes`; `AttributeImpl.get` raises
+                    -- KeyError("Deferred loader for attribute … failed to populate correctly")
+                    -- and every later read returns None without touching the database
+deriving DecidableEq, Repr
+
+/-- `inherits`: `mapper.inherits and not mapper.concrete`;
+    `optimized`: `mapper._optimized_get_statement(state, attribute_names) is not None` (every
+    attribute to load lives in a subclass table and the key values are loaded);
+    `row`: the SELECT found the row;
+    `checked`: the branch examines the result of `_load_on_ident` (else: `return _load_on_ident(…)`) -/
+def loadScalarAttributesWith (checked inherits optimized row : Bool) : Unexpired :=
+  if inherits && optimized then
+    if row then .loaded else (if checked then .objectDeleted else .nothing)
+  else
+    -- `select(mapper)` by identity key; `if has_key and result is None: raise ObjectDeletedError`
+    if row then .loaded else .objectDeleted
+
+/-- the working tree's `_load_scalar_attributes` -/
+def loadScalarAttributes : Bool → Bool → Bool → Unexpired :=
+  loadScalarAttributesWith SaVerif.Gen.ExpireCfg.optimizedGetResultChecked
+
 def run (c : Cfg) (st : St) : List Op → St
   | [] => st
   | o :: os => run c (step c st o).1 os
@@ -332,8 +426,7 @@ def runOut (c : Cfg) (st : St) : List Op → List Out
 def opOk (c : Cfg) : Op → Bool
   | .read k a | .set k a _ | .extSet k a _ => k < c.npk && a < c.nattr
   | .expire k attrs | .refresh k attrs => k < c.npk && attrsOk c attrs
-  | .query _ (some (a, _)) => a < c.nattr
-  | .query _ none => true
+  | .query _ filt cols => filtOk c filt && colsOk c cols
   | .extDel k | .extIns k _ | .detach k | .attach k _ => k < c.npk
   | .expireAll | .flush | .commit | .rollback => true
 
